@@ -59,11 +59,19 @@ func (i StringAnyMapInspector) SetWithBuffer(dst, value any, buf AccumulativeBuf
 		case string:
 			buf_[path[0]] = buf.BufferizeString(x)
 		case *string:
-			buf_[path[0]] = buf.BufferizeString(*x)
+			if x == nil {
+				buf_[path[0]] = value
+			} else {
+				buf_[path[0]] = buf.BufferizeString(*x)
+			}
 		case []byte:
 			buf_[path[0]] = buf.Bufferize(x)
 		case *[]byte:
-			buf_[path[0]] = buf.Bufferize(*x)
+			if x == nil {
+				buf_[path[0]] = value
+			} else {
+				buf_[path[0]] = buf.Bufferize(*x)
+			}
 		default:
 			buf_[path[0]] = value
 		}
@@ -180,11 +188,15 @@ func (i StringAnyMapInspector) Length(x any, result *int, path ...string) error 
 		case string:
 			*result = len(x1)
 		case *string:
-			*result = len(*x1)
+			if x1 != nil {
+				*result = len(*x1)
+			}
 		case []byte:
 			*result = len(x1)
 		case *[]byte:
-			*result = len(*x1)
+			if x1 != nil {
+				*result = len(*x1)
+			}
 		}
 		return nil
 	}
@@ -205,7 +217,9 @@ func (i StringAnyMapInspector) Capacity(x any, result *int, path ...string) erro
 		case []byte:
 			*result = cap(x1)
 		case *[]byte:
-			*result = cap(*x1)
+			if x1 != nil {
+				*result = cap(*x1)
+			}
 		}
 		return nil
 	}
@@ -241,9 +255,14 @@ func (i StringAnyMapInspector) indir1(dst *map[string]any, val any) error {
 	case map[string]any:
 		*dst = x
 	case *map[string]any:
-		*dst = *x
+		// A nil pointer leads to no map.
+		if x != nil {
+			*dst = *x
+		}
 	case **map[string]any:
-		*dst = *(*x)
+		if x != nil && *x != nil {
+			*dst = *(*x)
+		}
 	default:
 		return ErrUnsupportedType
 	}
@@ -255,9 +274,13 @@ func (i StringAnyMapInspector) indir2(dst *map[string]any, val any) error {
 	case map[string]any:
 		return ErrMustPointerType
 	case *map[string]any:
-		*dst = *x
+		if x != nil {
+			*dst = *x
+		}
 	case **map[string]any:
-		*dst = *(*x)
+		if x != nil && *x != nil {
+			*dst = *(*x)
+		}
 	default:
 		return ErrUnsupportedType
 	}
@@ -287,11 +310,19 @@ func (i StringAnyMapInspector) cpy(dst *map[string]any, src map[string]any, buf 
 			case string:
 				(*dst)[k] = buf.BufferizeString(x1)
 			case *string:
-				(*dst)[k] = buf.BufferizeString(*x1)
+				if x1 == nil {
+					(*dst)[k] = x
+				} else {
+					(*dst)[k] = buf.BufferizeString(*x1)
+				}
 			case []byte:
 				(*dst)[k] = buf.Bufferize(x1)
 			case *[]byte:
-				(*dst)[k] = buf.Bufferize(*x1)
+				if x1 == nil {
+					(*dst)[k] = x
+				} else {
+					(*dst)[k] = buf.Bufferize(*x1)
+				}
 			default:
 				// todo check possible pointer type of x?
 				(*dst)[k] = x
